@@ -241,7 +241,29 @@ pub fn for_each_db(
     }
     let n_layouts = wss.len();
     for ch in crate::checks::c02::Chain::enumerate(chain_depth, chain_len) {
-        wss.push(ch.to_ws());
+        let ws = ch.to_ws();
+        if rich {
+            // every definition carries its own return type (features that print a type must all
+            // print the one of the definition go-to-definition selects) …
+            let mut all = ws.clone();
+            // … and once more with a type only on the definitions that do not request themselves
+            let mut some = ws.clone();
+            for (w, only_plain) in [(&mut all, false), (&mut some, true)] {
+                for (fi, f) in w.files.iter_mut().enumerate() {
+                    for (ii, it) in f.items.iter_mut().enumerate() {
+                        if let crate::ws::Item::Fixture { ret, deps, name, .. } = it {
+                            if !only_plain || (name == "fx" && !deps.iter().any(|d| d == "fx")) {
+                                *ret = Some(format!("T{}_{}", fi, ii));
+                            }
+                        }
+                    }
+                }
+            }
+            wss.push(all);
+            wss.push(some);
+        } else {
+            wss.push(ws);
+        }
     }
     let n_chains = wss.len() - n_layouts;
     crate::report::par_batches(&wss, 32, |i, ws| {
